@@ -43,7 +43,14 @@ LEVEL_TEXT = ('Coq theorems over an executable Gallina model of the CAP/SASL reg
               'against servers that reject the nick any number K of times at any round (+K rounds; C08.F26 fixed); a reset yields the initial state, but not after an STS reconnect inside a CAP LS line (finding F23). '
               'Tie: FSM table/expect lists/requested set and the shapes of the repaired guards regenerated by AST; per-step refinement check of the real Irc object.')
 LEVEL_NOTE = ('Trusted: Coq kernel, gen_tables.py, extraction + driver, harness; stub driver semantics (reset on reconnect); base64/credential '
-              'chunks as inputs; liveness against a conformant server is stated for the model server strategy only (see DESIGN).')
+              'chunks as inputs; liveness against a conformant server is stated for the model server strategy only (see DESIGN). '
+              'Modelled, not verified / not modelled (gap audit): the handlers are driven directly (Irc.dispatchCommand), so Irc.feedMsg\'s own '
+              'pre-processing is outside the model -- the nick/server setters (001-005, 25x, 37x rewrite irc.nick, which do43x/_getNextNick compare '
+              'with), IrcState.addMsg (004/005 -> supported umodes filter of do376) and the plugin callbacks (postTransition, inFilter; none loaded); '
+              'ECDSA with a readable key (signature = opaque oracle; probed by hand: the challenge round and the wrong-size-challenge abort behave as '
+              'modelled) and SCRAM (module absent) are outside the liveness theorem; zombie/die() during registration and requireStarttls are never '
+              'configured; one Irc object per rig except the two configurations that first set up a second network with SASL credentials; takeMsg\'s '
+              'labels / outFilter / throttling of the normal queue are not modelled (only the fast queue is).')
 TECHNIQUE = 'Coq proof (invariants over fold of step; per-step output lemmas) + regenerated FSM table + per-step refinement check'
 
 CHUNK = 'A' * 400
@@ -108,6 +115,13 @@ CONFIGS = [
     # PLAIN responses of exactly / just around a whole number of 400-character chunks (raw 2*10+2+len(pw) bytes)
     {'name': 'b64-%d' % (4 * ((22 + n + 2) // 3)), 'user': 'u' * 10, 'pw': 'p' * n, 'mechs': ['plain'], 'required': False}
     for n in (275, 276, 278, 279, 575, 576, 578, 579)
+] + [
+    # a server password and user modes (PASS between CAP LS and NICK, MODE after the MOTD)
+    {'name': 'password+umodes', 'user': 'jilles', 'pw': 'sesame', 'mechs': ['plain'], 'required': False, 'password': 'hunter2', 'umodes': '+iw'},
+    # ANOTHER network with SASL credentials was set up first in the same process: this one has none and must not request sasl
+    # (fixed C08.F27: resetSasl used to add 'sasl' to the class attribute REQUEST_CAPABILITIES shared by all networks)
+    {'name': 'nosasl-next-to-a-sasl-network', 'user': '', 'pw': '', 'mechs': ['plain'], 'required': False, 'other_network_has_sasl': True},
+    {'name': 'required-nosasl-next-to-a-sasl-network', 'user': '', 'pw': '', 'mechs': ['plain'], 'required': True, 'other_network_has_sasl': True},
 ]
 
 
@@ -126,6 +140,18 @@ class Rig:
         net.certfile.setValue(cfg.get('cert', ''))
         # REQUEST_CAPABILITIES is a class attribute that only ever grows: start each rig from the pristine set
         irclib.Irc.REQUEST_CAPABILITIES = set(x for x in irclib.Irc.REQUEST_CAPABILITIES if x != 'sasl')
+        net.password.setValue(cfg.get('password', ''))
+        net.umodes.setValue(cfg.get('umodes', ''))
+        if cfg.get('other_network_has_sasl'):
+            import supybot.world as world
+            try:
+                other = conf.supybot.networks.get('netb')
+            except Exception:
+                other = conf.registerNetwork('netb')
+            other.sasl.username.setValue('someone'); other.sasl.password.setValue('else'); other.sasl.mechanisms.setValue(['plain'])
+            o = irclib.Irc('netb', callbacks=[])
+            if o in world.ircs:
+                world.ircs.remove(o)
         self.log = []
         irc = irclib.Irc('test', callbacks=[])
         self.irc = irc
@@ -150,9 +176,10 @@ class Rig:
         authstring = b'\0'.join([cfg['user'].encode(), cfg['user'].encode(), cfg['pw'].encode()])
         self.cred_chunks = list(ircutils.authenticate_generator(authstring))
         # the model gets the base64 strings and does the chunking itself (auth_gen)
-        self.wcfg = [sorted(irc.REQUEST_CAPABILITIES), cfg['required'], list(irc.sasl_next_mechanisms),
+        wanted = irc._wantedCapabilities() if hasattr(irc, '_wantedCapabilities') else irc.REQUEST_CAPABILITIES
+        self.wcfg = [sorted(wanted), cfg['required'], list(irc.sasl_next_mechanisms),
                      base64.b64encode(authstring).decode(), base64.b64encode(cfg['user'].encode()).decode(), [],
-                     False, False, self.secure, 'irc.example.org', 3, len(conf.supybot.nick.alternates())]
+                     bool(cfg.get('password')), bool(cfg.get('umodes')), self.secure, 'irc.example.org', 3, len(conf.supybot.nick.alternates())]
 
     def close(self):
         irclib, conf, ircmsgs, ircutils, ircdb, drivers = self.mods
@@ -343,6 +370,8 @@ class Trace:
             if o[0] == 0 and o[1] == 'CAP' and o[2][:1] == ['REQ']:
                 caps = o[2][1].split()
                 self.srv_req.update(caps)
+                if 'sasl' in caps and not rig.wcfg[2]:
+                    self.fail(idx, 'req-sasl-without-credentials', "requested 'sasl' on a network without any usable SASL mechanism")
                 for c in caps:
                     if c not in self.wanted:
                         self.fail(idx, 'req-unwanted', 'requested %r which is not in the wanted set' % c)
@@ -547,6 +576,9 @@ def run_sequence(ctx, mods, cfgi, secure, seq, model=True, kind='seq', oracle=No
     tr = Trace(ctx, None, rig.wcfg[0], cfg['required'])
     extra = []
     game = None
+    if 'sasl' in rig.wcfg[0] and not rig.wcfg[2]:
+        extra.append({'step': 0, 'kind': 'wants-sasl-without-credentials',
+                      'detail': "this network has no usable SASL mechanism, yet 'sasl' is among the capabilities it will request: %r" % rig.wcfg[0]})
     try:
         queue, idx = list(seq), -1
         while queue or game:
@@ -703,11 +735,11 @@ def sequences(ctx):
                 continue
             for ci in (cfgs if n < 2 else [(t[0] + t[-1]) % len(CONFIGS)]):
                 out.append((ci, (t[0] + ci) % 2 == 0, [small[i] for i in t], 'exhaustive-len%d' % n))
-    for _ in range(ctx.n(2100)):
+    for _ in range(ctx.n(1900)):
         out.append((rng.randrange(len(CONFIGS)), rng.random() < 0.5, gen_seq(rng), 'random'))
-    for _ in range(ctx.n(300)):
+    for _ in range(ctx.n(200)):
         out.append((rng.randrange(len(CONFIGS)), True, gen_del_seq(rng), 'directed-del'))
-    for _ in range(ctx.n(300)):
+    for _ in range(ctx.n(200)):
         out.append((rng.randrange(len(CONFIGS)), True, gen_batch_seq(rng), 'batch-then-disconnect'))
     # lock-step games against a protocol-conformant server (the strategy of coq/C08/Model.v), every configuration:
     # ACK everything + SASL succeeds / NAK everything, every mechanism fails / 908 then 904, then success / no CAP support
